@@ -22,7 +22,7 @@ POLL_KIND = {"poll_response": 0, "poll_pushed_response": 0, "poll_data": 1, "pol
 TRANSPORT_OPS = {"peer", "eof", "read_fail", "write_mode", "write_chunk", "read_chunk", "sleep", "handshake"}
 RKIND = {1: "RHeaders", 2: "RInfo", 3: "RTrailers", 4: "RData", 5: "RPromised", 6: "RPollData", 7: "RAfterReset"}
 WORK = {1: "WFrameQueued", 2: "WOpenQueued", 3: "WConnWindowOwed", 4: "WStreamWindowOwed", 5: "WTargetChanged",
-        6: "WLastHandleDropped", 7: "WStreamRefDropped", 8: "WReservationLowered"}
+        6: "WLastHandleDropped", 7: "WStreamRefDropped", 8: "WReservationLowered", 9: "WOnlyConnRefLeft"}
 REGISTER = {"stream.wait_send": "SlSend", "stream.wait_open": "SlOpen", "stream.wait_recv": "SlRecv", "stream.wait_push": "SlPush"}
 PRIMITIVE = {"stream.notify_send", "stream.notify_open", "stream.notify_recv", "stream.notify_push"}
 STREAM_SITE = {"stream.notify_capacity": "StCapacity", "prio.pop_pending_open": "StOpened", "stream.set_reset": "StSetReset",
@@ -52,6 +52,7 @@ def project(trace):
     steps = []
     stats = {}
     problems = []
+    kept = []  # trace index of every projected step
 
     def count(k):
         stats[k] = stats.get(k, 0) + 1
@@ -101,7 +102,10 @@ def project(trace):
                 labels[site[0]][1].append(bool(args[2]))
             elif nm == "conn.task_wake":
                 own = recv_data_depth is not None and args[0] in (3, 4)
-                labels.append(["LSite (%s %s)" % ("StOwnWork" if own else "StWork", WORK.get(args[0], "WFrameQueued")), [] if own else [bool(args[1])]])
+                if args[0] not in WORK:
+                    problems.append({"step": st["i"], "why": "connection wake at a site the model does not know", "event": e})
+                    continue
+                labels.append(["LSite (%s %s)" % ("StOwnWork" if own else "StWork", WORK[args[0]]), [] if own else [bool(args[1])]])
                 count("site:StWork:" + WORK.get(args[0], "?"))
                 site = None
             elif nm == "conn.self_wake":
@@ -123,7 +127,9 @@ def project(trace):
         if wk:
             count("wakes")
         ls = "; ".join("(%s, %s)" % (l, "None" if p is None else "Some [%s]" % "; ".join(b(x) for x in p)) for l, p in labels)
+        kept.append(st["i"])
         steps.append("([%s], %s)" % (ls, "None" if wk is None else "Some [%s]" % "; ".join(str(x) for x in wk)))
+    project.last_kept = kept
     return "[" + ";\n   ".join(steps) + "]", stats, problems
 
 
@@ -219,10 +225,9 @@ def report_disagreements(rep, scs, failing):
         m = re.search(r"= (\d+)%N", out) or re.search(r"= (\d+)\s", out)
         code = int(m.group(1)) if m else None
         k = (code // 10 - 1) if code else None
-        # the k-th projected step
-        projected = [st for st in sc["trace"] if not (st["op"].get("op") in TRANSPORT_OPS and not any(
-            e[0] in PRIMITIVE or e[0] in REGISTER or e[0] in STREAM_SITE or e[0].startswith("conn.task") or e[0] == "recv.event" for e in st.get("ev", [])))]
-        stp = projected[k] if k is not None and k < len(projected) else None
+        kept = getattr(project, "last_kept", [])
+        by_i = {st["i"]: st for st in sc["trace"]}
+        stp = by_i.get(kept[k]) if k is not None and k < len(kept) else None
         rep.violation("broken-correspondence", {
             "correspondence": "Model/Wake.v check_wake vs /repo wake events and the wakers fired in the harness",
             "diag_code": code,
@@ -252,6 +257,8 @@ def run_corpus(rep):
     d = os.path.join(common.VERIF, "corpus", "coop")
     expect = {
         "push_wait_not_woken_on_end_stream.json": ("the push waiter 105 is woken when the response ends", lambda o: any(105 in st["wakes"] for st in o["trace"])),
+        "push_wait_end_by_data.json": ("the push waiter 105 is woken when the response ends with a DATA frame", lambda o: any(105 in st["wakes"] for st in o["trace"])),
+        "push_wait_end_by_trailers.json": ("the push waiter 105 is woken when the response ends with trailers", lambda o: any(105 in st["wakes"] for st in o["trace"])),
         "ready_wait_displaced_by_capacity_wait.json": ("opening the queued stream wakes both the readiness waiter 2 and the capacity waiter 111",
                                                          lambda o: any(2 in st["wakes"] and 111 in st["wakes"] for st in o["trace"])),
         "reserve_lowered_connection_not_woken.json": ("lowering the reservation wakes the connection task",
